@@ -192,6 +192,31 @@ fn relation(op: &Op, pre: &NTree, post: &NTree, res: &Res, sa: &str, da: &str, w
     // under follow the file or directory behind a link is copied under the TARGET's name; where that lands (and
     // what it collides with) is not stated, so a source tree containing links is only held to the other clauses
     let follow_with_links = follow && pre.subtree(&sroot).iter().any(|k| matches!(pre.nodes[k].kind, NKind::Link { .. }));
+    // in-memory backend: the only links a follow copy makes are those for a source link whose target is itself a
+    // link - recreated as a link to THAT link's target (documented in the code). Wherever it is placed, a new link
+    // below the destination therefore points at what some such second link points at, never at a link of the source
+    if follow_with_links && with_owner {
+        // (the traversal follows links out of the source subtree, so the first link may live anywhere)
+        let second_targets: BTreeSet<String> = pre
+            .nodes
+            .keys()
+            .filter_map(|k| match &pre.nodes[k].kind {
+                NKind::Link { target, .. } => match pre.nodes.get(target).map(|n| &n.kind) {
+                    Some(NKind::Link { target: t2, .. }) => Some(t2.clone()),
+                    _ => None,
+                },
+                _ => None,
+            })
+            .collect();
+        for (k, n) in &post.nodes {
+            if let NKind::Link { target, .. } = &n.kind {
+                if !pre.nodes.contains_key(k) && (*k == droot || is_under(k, &droot)) && !second_targets.contains(target) {
+                    v.push(("link-made-by-a-follow-copy-points-at-the-second-link's-target→elsewhere".into(), format!("{} -> {} (allowed: {:?})", k, target, second_targets)));
+                    break;
+                }
+            }
+        }
+    }
     for k in pre.subtree(&sroot) {
         if follow_with_links {
             // what is behind the links is misplaced (recorded finding) and may collide with anything, but a copy
